@@ -140,3 +140,23 @@ Proof.
   - repeat constructor; lia.
   - eexists. vm_compute. reflexivity.
 Qed.
+
+(* the modifier-cancelling retry of the standard tracker reaches the first tracked key too: a sequence that consists of, or begins
+   with, a modifier written as a plain key can only be recognised that way (the pressed modifier carries its own modifier bit) *)
+Lemma backtrack_reaches_first_key t mc v :
+  v <> KEY_OVERLAP_MARKER ->
+  backtrack t mc [v] 1 =
+    (let s := [if mc then N.land v MASK_KEYCODES else N.land v 64511] in
+     let r := get_or_descendant_exists t s in
+     if res_is_not r then (s, NotInTrie, true) else (s, r, false)).
+Proof.
+  intros Hv. cbn [backtrack bt_step nth_error]. destruct (N.eqb_spec v KEY_OVERLAP_MARKER) as [E|_]; [contradiction|].
+  destruct mc; cbn [set_nth]; destruct (res_is_not _); reflexivity.
+Qed.
+
+(* e.g. the sequence (lsft): the tapped shift arrives as lsft|0x8000, which no table entry has; with the bit cleared it is the entry *)
+Example leading_modifier_example :
+  let t : trie := [([42], (1, 0))] in
+  get_or_descendant_exists t [N.lor 42 32768] = NotInTrie /\
+  backtrack t true [N.lor 42 32768] 1 = ([42], HasValue (1, 0), false).
+Proof. cbv zeta. split; vm_compute; reflexivity. Qed.
